@@ -217,70 +217,84 @@ example :
     res.fin = .fatal ∧ res.replies.length = 4 ∧ qTopics res.reg = [[101] ++ ephSuffix] ∧
       qChannels res.reg ([101] ++ ephSuffix) = [[100] ++ ephSuffix] := by decide
 
-/-- HTTP: a request that is not answered 200 changes nothing (unknown path 404, wrong method
-405, malformed query / missing / invalid argument 400, unknown channel 404), and the model
-never answers 5xx. -/
+/-- HTTP, every method and EVERY path string (canonical or not), every argument combination: whatever the daemon
+is allowed to answer (`httpOutcomes`: one answer, or a set for the `net/http/pprof` rows), an answer other than
+200 changes nothing — unknown path 404, wrong method 405, a path that only matches after cleaning / case folding /
+trailing-slash repair 301 (GET) or 307 (other methods, httprouter's redirects), malformed query / missing /
+invalid argument 400, unknown channel 404 — and the only 5xx is the documented pprof-busy case: `GET
+/debug/pprof/profile` answers 500 while another CPU profile is running. -/
 theorem http_malformed_noop (c : Conf) (r : Registry) (method path : String) (a : HttpArgs) (now : Int) :
-    ((httpStep c r method path a now).2 ≠ 200 → (httpStep c r method path a now).1 = r) ∧
-    (httpStep c r method path a now).2 ∈ [200, 400, 404, 405] := by
-  unfold httpStep
-  have st : ∀ o : HttpOut, o.status ≠ 200 → o ≠ .ok := status_ne_200
-  have e400 : ∀ m, (HttpOut.err 400 m).status = 400 := fun _ => rfl
+    ∀ o ∈ httpOutcomes c r method path a now,
+      (o.2 ≠ 200 → o.1 = r) ∧
+      (o.2 ∈ [200, 301, 307, 400, 404, 405] ∨ (o.2 = 500 ∧ path = "/debug/pprof/profile")) := by
+  intro o ho
+  unfold httpOutcomes at ho
+  split at ho
+  · simp only [List.mem_map] at ho
+    obtain ⟨st, hst, rfl⟩ := ho
+    refine ⟨fun _ => rfl, ?_⟩
+    unfold pprofStatuses at hst
+    split at hst
+    · rename_i hp
+      simp only [List.mem_cons, List.not_mem_nil, or_false] at hst
+      rcases hst with rfl | rfl
+      · left; simp
+      · right; exact ⟨rfl, hp⟩
+    · split at hst <;> (left; simp only [List.mem_cons, List.not_mem_nil, or_false] at hst ⊢; omega)
+  · simp only [List.mem_singleton] at ho
+    subst ho
+    exact ⟨(httpStep_noop c r method path a now).1, Or.inl (httpStep_noop c r method path a now).2⟩
+
+/-- the answer the driver replays (`httpStep`) is one of the allowed ones -/
+theorem http_step_allowed (c : Conf) (r : Registry) (method path : String) (a : HttpArgs) (now : Int) :
+    httpStep c r method path a now ∈ httpOutcomes c r method path a now := by
+  unfold httpOutcomes
   split
-  · exact ⟨fun _ => rfl, by simp⟩
-  · exact ⟨fun _ => rfl, by simp⟩
-  · exact ⟨fun _ => rfl, by simp⟩
-  · refine ⟨fun h => createTopic_noop r a (st _ h), ?_⟩
-    unfold createTopic; split <;> (try split) <;> (try split) <;> simp [HttpOut.status]
-  · refine ⟨fun h => deleteTopic_noop r a (st _ h), ?_⟩
-    unfold deleteTopic; split <;> (try split) <;> simp [HttpOut.status]
-  · refine ⟨fun h => createChannel_noop r a (st _ h), ?_⟩
-    unfold createChannel
-    split
-    · simp [HttpOut.status]
-    · split
-      · rename_i e hg
-        unfold getTopicChannelArgs at hg
-        split at hg
-        · simp only [Except.error.injEq] at hg; rw [← hg]; simp [HttpOut.status]
-        · split at hg
-          · simp only [Except.error.injEq] at hg; rw [← hg]; simp [HttpOut.status]
-          · split at hg
-            · simp only [Except.error.injEq] at hg; rw [← hg]; simp [HttpOut.status]
-            · split at hg
-              · simp only [Except.error.injEq] at hg; rw [← hg]; simp [HttpOut.status]
-              · simp at hg
-      · simp [HttpOut.status]
-  · refine ⟨fun h => deleteChannel_noop r a (st _ h), ?_⟩
-    unfold deleteChannel
-    split
-    · simp [HttpOut.status]
-    · split
-      · rename_i e hg
-        unfold getTopicChannelArgs at hg
-        split at hg
-        · simp only [Except.error.injEq] at hg; rw [← hg]; simp [HttpOut.status]
-        · split at hg
-          · simp only [Except.error.injEq] at hg; rw [← hg]; simp [HttpOut.status]
-          · split at hg
-            · simp only [Except.error.injEq] at hg; rw [← hg]; simp [HttpOut.status]
-            · split at hg
-              · simp only [Except.error.injEq] at hg; rw [← hg]; simp [HttpOut.status]
-              · simp at hg
-      · split <;> simp [HttpOut.status]
-  · refine ⟨fun h => tombstone_noop r a now (st _ h), ?_⟩
-    unfold tombstone; split <;> (try split) <;> (try split) <;> simp [HttpOut.status]
-  · split
-    · exact ⟨fun _ => rfl, by simp⟩
-    · split
-      · exact ⟨fun _ => rfl, by simp⟩
-      · split
-        · refine ⟨fun _ => rfl, ?_⟩; split <;> simp
-        · refine ⟨fun _ => rfl, ?_⟩; split <;> simp
-  · split
-    · exact ⟨fun _ => rfl, by simp⟩
-    · split <;> exact ⟨fun _ => rfl, by simp⟩
-  · exact ⟨fun _ => rfl, by simp⟩
+  · rename_i h
+    have : httpStep c r method path a now = (r, 200) := by unfold httpStep; rw [h]
+    rw [this]
+    simp only [List.mem_map]
+    refine ⟨200, ?_, rfl⟩
+    unfold pprofStatuses; split <;> (try split) <;> simp
+  · simp
+
+/-- A redirect is answered only for a path that is NOT registered for that method but is a registered path of the
+same method after `CleanPath`, ASCII lower-casing and adding/removing one trailing slash; it is 301 for GET and 307
+otherwise; a registered (method, path) pair always reaches its handler. -/
+theorem redirect_characterised (method path : String) :
+    (∀ code, route method path = .redirect code →
+      routes.find? (fun e => e.1 = method && e.2.1 = path) = none ∧ fixMatches routes method path = true ∧
+      path ≠ "/" ∧ code = (if method = "GET" then 301 else 307)) ∧
+    (∀ e, routes.find? (fun e => e.1 = method && e.2.1 = path) = some e → route method path = .found e.2.2) := by
+  refine ⟨?_, ?_⟩
+  · intro code h
+    unfold route at h
+    split at h
+    · simp at h
+    · rename_i hf
+      split at h
+      · rename_i hc
+        simp only [Bool.and_eq_true, bne_iff_ne, ne_eq, decide_eq_true_eq, decide_not, Bool.not_eq_true',
+          decide_eq_false_iff_not] at hc
+        simp only [Route.redirect.injEq] at h
+        exact ⟨hf, hc.2, hc.1.2, h.symm⟩
+      · split at h
+        · split at h <;> simp at h
+        · split at h <;> simp at h
+  · intro e h
+    unfold route; rw [h]
+
+/-- non-vacuity: the path classes of audit item C11 -/
+example : route "GET" "/lookup/" = .redirect 301 ∧ route "GET" "/LOOKUP" = .redirect 301 ∧
+    route "GET" "//lookup" = .redirect 301 ∧ route "POST" "/topic/create/" = .redirect 307 ∧
+    route "GET" "/debug/pprof/" = .redirect 301 ∧ route "GET" "/a/../lookup/." = .redirect 301 ∧
+    route "OPTIONS" "*" = .options ∧ route "PUT" "/lookup/" = .notFound ∧ route "POST" "/LOOKUP" = .notFound ∧
+    route "GET" "/" = .notFound ∧ route "GET" "/Topic/Create" = .notFound ∧
+    cleanPath "/a/b/../c//./d/".toList = "/a/c/d/".toList := by decide
+
+example : httpOutcomes ⟨0, 0⟩ init "GET" "/debug/pprof/profile" ⟨false, none, none, none⟩ 0 = [(init, 200), (init, 500)] ∧
+    httpOutcomes ⟨0, 0⟩ init "GET" "/debug/pprof/heap" ⟨false, none, none, none⟩ 0 = [(init, 200), (init, 400)] ∧
+    httpOutcomes ⟨0, 0⟩ init "GET" "/lookup/" ⟨false, none, none, none⟩ 0 = [(init, 301)] := by decide
 
 /-- non-vacuity: the five kinds of answers of the route table -/
 example : route "GET" "/lookup" = .found .lookup ∧ route "POST" "/lookup" = .methodNotAllowed ∧
